@@ -142,6 +142,75 @@ def observe(h, render=False):
             pass
 
 
+LOADED_KINDS = ("del", "addnode", "insert", "meta", "dellink", "order", "deladd", "reuse")
+
+
+def first_of_each(menu_, kinds):
+    picked, seen = [], set()
+    for m in menu_:
+        if m[0] in kinds and m[0] not in seen:
+            seen.add(m[0])
+            picked.append(m)
+    return picked
+
+
+def load_copy(h):
+    """The HUGR a reader gets from the document of h (a HUGR of non-builder origin)."""
+    from hugr.hugr import Hugr
+
+    return Hugr.load_json(h.to_json())
+
+
+def translate(m, h, l):
+    """The mutation of h (named by h's node indices) spelled for l, a HUGR with the same hierarchy whose
+    indices may differ (the k-th node of the hierarchy-only numbering of h is the k-th of l)."""
+    from mc.checks.c03 import canonical_numbering
+
+    _, pos = canonical_numbering(h)
+    order_l, pos_l = canonical_numbering(l)
+    t = lambda i: order_l[pos[i]].idx  # noqa: E731
+    k = m[0]
+    if k in ("del", "deladd"):
+        return [k, t(m[1])]
+    if k == "addnode":
+        return [k, t(m[1]), m[2]]
+    if k == "insert":
+        return [k, m[1], t(m[2])]
+    if k == "meta":
+        return [k, t(m[1]), m[2], m[3]]
+    if k in ("order", "reuse"):
+        return [k, t(m[1]), t(m[2])]
+    if k == "dellink":
+        s, d = list(h.links())[m[1]]
+        want = (pos[s.node.idx], s.offset, pos[d.node.idx], d.offset)
+        for j, (s2, d2) in enumerate(l.links()):
+            if (pos_l[s2.node.idx], s2.offset, pos_l[d2.node.idx], d2.offset) == want:
+                return [k, j]
+        return None  # the link is missing from l: reported by the round-trip comparison itself
+    raise AssertionError(m)
+
+
+def loaded_histories(h_factory, tier="quick", kinds=LOADED_KINDS, pre=observe):
+    """Start from a non-initial state of another origin: the HUGR is built, written and read back, and the
+    *loaded* copy is then mutated (first mutation of each kind of its own menu).  Yields (history, hugr)
+    with ["loaded"] as the first history entry; nothing is yielded if the document cannot be written or
+    read (the round-trip check reports that)."""
+    pre = pre or (lambda h: None)
+    try:
+        l0 = load_copy(h_factory())
+    except Exception:  # noqa: BLE001
+        return
+    for m in first_of_each(menu(l0, tier), kinds):
+        l1 = load_copy(h_factory())
+        pre(l1)
+        try:
+            apply(l1, m)
+        except Exception as e:  # noqa: BLE001
+            yield [["loaded"], m, ["raised", f"{type(e).__name__}: {e}"]], None
+            continue
+        yield [["loaded"], m], l1
+
+
 def histories(h_factory, depth, tier="quick", kinds=None, pre=observe):
     """All mutation histories up to `depth`; yields (history, hugr).  `kinds` restricts the first
     level to the first mutation of each listed kind.  `pre` (default: observe) is called on the graph
